@@ -30,6 +30,7 @@ def handle (st : DState) (j : Json) : DState × Json :=
   | .str "link" => (st, linkOp j)
   | .str "dmet_reorder" => (st, dmetReorderOp j)
   | .str "partition" => (st, partitionOp j)
+  | .str "defaults_history" => (st, defaultsHistoryOp j)
   | .str "pad1" => (st, pad1Op j)
   | .str "spinsum1" => (st, spinSum1Op j)
   | .str "iqpe" => (st, iqpeOp j)
